@@ -8,6 +8,7 @@
 package main
 
 import (
+	"encoding/json"
 	"flag"
 	"fmt"
 	"os"
@@ -143,6 +144,7 @@ func runC04(f *hx.Flags, w *world) int {
 	if r.HandleReplay() {
 		return 0
 	}
+	prepareCorpus(w, f.Corpus)
 	r.RunCorpus()
 	g := &gen{r: r, w: w, rng: r.Rng, thorough: f.Tier == "thorough"}
 	nBatches, batch := 2, 25
@@ -171,9 +173,9 @@ func runC04(f *hx.Flags, w *world) int {
 	return 0
 }
 
-const ruleC05 = "enum definition files as in C04, with and without parsable trait columns (untyped/named string, signed and unsigned integers of 8-64 bits, time.Duration) and duplicated values, generated under the option combinations of -json/-text/-caseInsensitive/-parsableByTraits that include the codec under test (-yaml stays on: without it the generated file lacks IsEnum, see C13); one case = one type x one codec: the encoding of every defined value read back as a plain string, decode(encode v), and decoding of scalar documents: names, near-miss names, empty string, random words, numbers (defined values, trait constants +-1 and +-2^8/2^16, 64-bit boundaries), non-integer scalars, constants of parsable and of non-parsable traits. non-trivial = the type has a parsable trait or a duplicated value; distinct by request lines"
+const ruleC05 = "enum definition files as in C04, with and without parsable trait columns (untyped/named string, signed and unsigned integers of 8-64 bits, time.Duration) and duplicated values, generated under the option combinations of -json/-text/-caseInsensitive/-parsableByTraits that include the codec under test (-yaml stays on: without it the generated file lacks IsEnum, see C13); shaped files in every batch: under EACH of the 8 option sets a type with parsable untyped/named string traits, values declared without trait columns and an empty-string constant; an enum whose value names are YAML/JSON-significant identifiers (Null null NULL True False Yes No On Off Y N ...). one case = one type x one codec: the encoding of every defined value read back as a plain string, decode(encode v) standalone and as a struct field into a target holding another value, and decoding of scalar documents: the empty string, case variants of string trait constants, names, near-miss names, empty string, random words, numbers (defined values, trait constants +-1 and +-2^8/2^16, 64-bit boundaries), non-integer scalars, constants of parsable and of non-parsable traits. non-trivial = the type has a parsable trait or a duplicated value; distinct by request lines"
 
-const ruleC12 = "enum definition files with 1-5 trait columns per type (untyped and named string, untyped int, named int8, int16, time.Duration through a renamed import, uint8, uint64, named uint16, bool, rune), exported and _-prefixed trait names, own per-line trait constant names, random parsable subsets with pairwise distinct constants, duplicated values (deprecated alias with / without trait columns, second live name); per type: every accessor on all 256 values of 8-bit kinds (boundary, defined, defined+-1, random otherwise), Parse<T> of every typed trait constant and its successor, and per parsable column the decoding of a JSON/YAML (text for string kinds) scalar holding each constant of a primary definition, compared with what the property demands (the owning value). every case is non-trivial; distinct by request lines"
+const ruleC12 = "enum definition files with 1-5 trait columns per type (untyped and named string, untyped int, named int8, int16, time.Duration through a renamed import, uint8, uint64, named uint16, bool, rune), exported and _-prefixed trait names, own per-line trait constant names, random parsable subsets with pairwise distinct constants, duplicated values (deprecated alias with / without trait columns, second live name); shaped files in every batch: all 16 deprecation patterns of 3-4 names of one value whose lines carry DIFFERENT trait constants, several parsable traits of distinct named types sharing an underlying type (string, int8, uint16 families), values without trait columns; per type: every accessor on all 256 values of 8-bit kinds (boundary, defined, defined+-1, random otherwise), Parse<T> of every typed trait constant and its successor, and per parsable column the decoding of a JSON/YAML (text for string kinds) scalar holding each constant of a primary definition, compared with what the property demands (the owning value). every case is non-trivial; distinct by request lines"
 
 func keyOfGeneric(prop string) func(d *hx.Disagreement) string {
 	return func(d *hx.Disagreement) string {
@@ -224,14 +226,25 @@ func runC05(f *hx.Flags, w *world) int {
 	if r.HandleReplay() {
 		return 0
 	}
+	prepareCorpus(w, f.Corpus)
 	r.RunCorpus()
 	optSets := []string{"-", "c", "J", "T", "JT", "cJ", "cT", "cJT"}
-	nBatches, batch := 2, 20
+	nBatches, batch := 2, 8
 	if g.thorough {
-		nBatches, batch = 15, 40
+		nBatches, batch = 15, 28
 	}
+	stringish := []string{"string", "Str", "Str", "int", "uint8"}
 	for b := 0; b < r.N(nBatches); b++ {
 		var defs []*Def
+		// shaped definitions, every option set in every batch: parsable string traits (untyped and
+		// named) next to values declared WITHOUT trait columns and an empty-string constant, so that
+		// the empty document and case variants meet every fallback of every option combination
+		for k, opts := range optSets {
+			defs = append(defs, g.shapedDef(traitShape{opts: opts, fixedCols: stringish[:2+(k+b)%3], allParsable: k%2 == 0,
+				rowless: true, emptyStr: (k+b)%2 == 1, dups: k%3 == 2, nTypes: 1, nConsts: 3 + (k+b)%4}))
+		}
+		// value names that are YAML/JSON-significant identifiers (one such file per package)
+		defs = append(defs, g.yamlNamesDef(optSets[(2*b)%len(optSets)]))
 		for i := 0; i < batch; i++ {
 			opts := optSets[(b*batch+i)%len(optSets)]
 			switch i % 4 {
@@ -243,10 +256,14 @@ func runC05(f *hx.Flags, w *world) int {
 				}
 				defs = append(defs, d)
 			default:
-				defs = append(defs, g.traitDef(opts, 3, i%4 == 3, numericAndString))
+				defs = append(defs, g.shapedDef(traitShape{opts: opts, maxCols: 3, dups: i%4 == 3, families: numericAndString, rowless: i%4 == 2, emptyStr: i%8 == 1}))
 			}
 		}
 		g.emitC05(defs, true)
+	}
+	{
+		// second spelling set of the significant names under -caseInsensitive
+		g.emitC05([]*Def{g.yamlNamesDef("c")}, true)
 	}
 	// out of domain: -yaml=false (the generated file does not build on its own: C13)
 	g.emitC05([]*Def{g.traitDef("Y", 2, false, numericAndString)}, false)
@@ -264,19 +281,41 @@ func runC12(f *hx.Flags, w *world) int {
 	if r.HandleReplay() {
 		return 0
 	}
+	prepareCorpus(w, f.Corpus)
 	r.RunCorpus()
-	nBatches, batch := 2, 18
+	nBatches, batch := 2, 9
 	if g.thorough {
-		nBatches, batch = 15, 40
+		nBatches, batch = 15, 34
 	}
+	// every deprecation pattern of a duplicated value with 3-4 names; the names of a group carry
+	// DIFFERENT trait constants (the generator must keep the primary line's)
+	pats3 := []string{"LLL", "LLd", "LdL", "Ldd", "dLL", "dLd", "ddL", "ddd"}
+	pats4 := []string{"dLLL", "dLLd", "dLdL", "ddLL", "LdLL", "dddL", "LLLL", "dddd"}
 	for b := 0; b < r.N(nBatches); b++ {
 		var defs []*Def
+		opt := func(k int) string {
+			if (k+b)%3 == 2 {
+				return "c"
+			}
+			return "-"
+		}
+		// (c) duplicate groups: all patterns of length 3 in one type, of length 4 in another
+		defs = append(defs,
+			g.shapedDef(traitShape{opts: opt(0), fixedCols: []string{"string", "int"}, allParsable: true, dupGroups: pats3, nTypes: 1}),
+			g.shapedDef(traitShape{opts: opt(1), fixedCols: []string{"Str", "Sm", "uint8"}, allParsable: b%2 == 0, dupGroups: pats4, nTypes: 1}))
+		// (d) several parsable traits of DISTINCT named types sharing an underlying type
+		defs = append(defs,
+			g.shapedDef(traitShape{opts: opt(2), fixedCols: []string{"Str", "Str", "Sm", "Sm", "int8"}, allParsable: true, nTypes: 1, nConsts: 3 + b}),
+			g.shapedDef(traitShape{opts: opt(3), fixedCols: []string{"Un", "Un", "uint16", "Str", "Str"}, allParsable: true, nTypes: 1, nConsts: 3 + b, rowless: b%2 == 1}))
+		// families the template has no (bool) or a recent (untyped rune) decoder branch for, parsable:
+		// two values only, so that the bool constants stay pairwise distinct
+		defs = append(defs, g.shapedDef(traitShape{opts: opt(4), fixedCols: []string{"bool", "rune", "string"}, allParsable: true, nTypes: 1, nConsts: 2}))
 		for i := 0; i < batch; i++ {
 			opts := "-"
 			if i%5 == 4 {
 				opts = "c"
 			}
-			defs = append(defs, g.traitDef(opts, 5, i%3 == 2, colTypes))
+			defs = append(defs, g.shapedDef(traitShape{opts: opts, maxCols: 5, dups: i%3 == 2, families: colTypes, rowless: i%4 == 1, emptyStr: i%6 == 3}))
 		}
 		g.emitC12(defs, true)
 	}
@@ -310,4 +349,36 @@ func (g *gen) refold(d *Def) *Def {
 	}
 	d.Items = items
 	return d
+}
+
+// prepareCorpus builds all corpus definitions in ONE scratch package before hx runs the corpus
+// cases one by one (otherwise every corpus case costs a generator run and a go build of its own).
+func prepareCorpus(w *world, dir string) {
+	if dir == "" {
+		return
+	}
+	ents, err := os.ReadDir(dir)
+	if err != nil {
+		return
+	}
+	var names []string
+	for _, e := range ents {
+		if strings.HasSuffix(e.Name(), ".json") {
+			names = append(names, e.Name())
+		}
+	}
+	sort.Strings(names)
+	var defs []*Def
+	for _, n := range names {
+		b, err := os.ReadFile(filepath.Join(dir, n))
+		if err != nil {
+			continue
+		}
+		var c hx.Case
+		if json.Unmarshal(b, &c) != nil || len(c.Lines) == 0 {
+			continue
+		}
+		defs = append(defs, defOfCase(c.Lines))
+	}
+	w.prepare(defs)
 }
